@@ -85,8 +85,9 @@ where
         Some(pos) => {
             let mut res = String::from(&s[..pos]);
             res.reserve(s.len() - res.len());
-            let mut begin = true;
-            let mut prev_space = false;
+            // The copied prefix never starts with a space and ends with at most one
+            let mut begin = res.is_empty();
+            let mut prev_space = res.ends_with(common::SPACE);
             for c in s[pos..].chars() {
                 if !common::is_space_separator(c) {
                     res.push(c);
